@@ -13,21 +13,35 @@
 (* setting; EmptyVal marks a setting that is written down but, by the definition of its kind, is  *)
 (* not a value (empty list of addresses, zero duration, empty string).  Values are opaque.        *)
 (*                                                                                                *)
-(* Actions:  Configure(k, t, d)  the configuration is loaded (file, environment, flags, defaults) *)
-(*           Lookup(p)           util.BeaconNodeAddresses / Timeout / LogLevel /                   *)
-(*                               ProcessConcurrency / HierarchicalBool called with path p          *)
+(* A behaviour is the configuration HISTORY of one process: the configuration is loaded, looked  *)
+(* up, changed (one point set / removed, or the whole tree replaced), looked up again ... in any *)
+(* order.  The property holds at every lookup with respect to the configuration in force at that *)
+(* moment: the answer is a function of the current tree only, never of earlier lookups or of     *)
+(* earlier trees.                                                                                 *)
+(*                                                                                                *)
+(* Actions:  Configure(k, t, d)   the configuration is loaded (file, environment, flags, defaults)*)
+(*           Lookup(p)            util.BeaconNodeAddresses / Timeout / LogLevel /                  *)
+(*                                ProcessConcurrency / HierarchicalBool called with path p         *)
+(*           SetAt(q, v)          point q gets the setting v (viper.Set, an environment variable,  *)
+(*                                a re-read document): added or changed                            *)
+(*           Unset(q)             the setting at point q is removed                                *)
+(*           Reconfigure(t, d)    a completely new configuration (viper.Reset() and reload)        *)
 EXTENDS Integers, Sequences, FiniteSets, TLC
 
 CONSTANTS Names,          \* components used by the model-checked lattice
           Values,         \* values used by the model-checked lattice
           WithEmpty,      \* BOOLEAN: the lattice also writes down EmptyVal
           MaxPathLen,     \* longest lookup path of the lattice
-          ModelKinds      \* the kinds the lattice is enumerated for (the operators do not depend on it)
+          ModelKinds,     \* the kinds the lattice is enumerated for (the operators do not depend on it)
+          ChainLen,       \* depth of the lattice's chain a, a.a, ...
+          Changes         \* which configuration changes Next explores: subset of
+                          \* {"set", "unset", "replace", "replace-any"}
 
 VARIABLES kind,    \* which of the five settings
           tree,    \* the configuration tree for that setting
           dflt,    \* what the setting is when no level has a value (built-in default / zero)
-          last     \* last reply handed to a caller (observation only)
+          last     \* last reply handed to a caller (observation only); op = "lookup": the reply just
+                   \* given; op = "stale": the configuration has changed since that reply was given
 
 vars == <<kind, tree, dflt, last>>
 
@@ -40,17 +54,20 @@ Prefix(p, n) == SubSeq(p, 1, n)
 Parent(p) == Prefix(p, Len(p) - 1)
 HasValue(t, q) == q \in DOMAIN t /\ t[q] # EmptyVal
 
+\* the levels (prefix lengths) of the path that have a value, and the most specific of them (-1: none)
+Levels(t, p) == {n \in 0..Len(p) : HasValue(t, Prefix(p, n))}
+Level(t, p) == LET ns == Levels(t, p) IN IF ns = {} THEN -1 ELSE CHOOSE n \in ns : \A m \in ns : m <= n
+
 \* C19: the value at the longest prefix of the path that has a value, else the top-level default
-Resolve(t, p, d) ==
-    LET ns == {n \in 0..Len(p) : HasValue(t, Prefix(p, n))}
-    IN  IF ns = {} THEN d
-        ELSE t[Prefix(p, CHOOSE n \in ns : \A m \in ns : m <= n)]
+Resolve(t, p, d) == IF Levels(t, p) = {} THEN d ELSE t[Prefix(p, Level(t, p))]
 
 -----------------------------------------------------------------------------
 (* the model-checked lattice: every lookup path only sees its own prefixes, so one chain         *)
 (* a, a.a, a.a.a with one sibling per level covers every relation between a tree node and a path *)
-Chain == {<<>>, <<"a">>, <<"a", "a">>, <<"a", "a", "a">>}
-Siblings == {<<"b">>, <<"a", "b">>, <<"a", "a", "b">>}
+RECURSIVE ChainNode(_)
+ChainNode(n) == IF n = 0 THEN <<>> ELSE Append(ChainNode(n - 1), "a")
+Chain == {ChainNode(n) : n \in 0..ChainLen}                     \* ChainLen = 3: <<>>, a, a.a, a.a.a
+Siblings == {Append(ChainNode(n), "b") : n \in 0..(ChainLen - 1)}  \*               b, a.b, a.a.b
 Nodes == Chain \cup Siblings
 Settings == Values \cup {"absent"} \cup (IF WithEmpty THEN {EmptyVal} ELSE {})
 Restrict(f, D) == [x \in D |-> f[x]]
@@ -61,6 +78,16 @@ SeqsUpTo(n) == IF n = 0 THEN {<<>>}
                ELSE LET s == SeqsUpTo(n - 1) IN s \cup {Append(q, c) : q \in {x \in s : Len(x) = n - 1}, c \in Names}
 Paths == SeqsUpTo(MaxPathLen)
 Default == "d0"
+
+\* whole-tree replacements that deliberately REUSE the points of the tree they replace
+SwapValues(t) == [q \in DOMAIN t |-> IF t[q] \in Values THEN CHOOSE v \in Values : v # t[q] ELSE t[q]]
+Complement(t) == [q \in Nodes \ DOMAIN t |-> CHOOSE v \in Values : TRUE]
+ShiftDown(t) == LET D == {q \in Nodes : q # <<>> /\ Parent(q) \in DOMAIN t /\ q[Len(q)] = "a"}
+                IN  [q \in D |-> t[Parent(q)]]
+ShiftUp(t) == LET D == {q \in Chain : Append(q, "a") \in DOMAIN t} IN [q \in D |-> t[Append(q, "a")]]
+Mirror(t) == LET Twin(q) == IF q = <<>> THEN q ELSE Append(Parent(q), IF q[Len(q)] = "a" THEN "b" ELSE "a")
+             IN  [q \in {x \in Nodes : Twin(x) \in DOMAIN t} |-> t[Twin(q)]]
+Replacements(t) == {SwapValues(t), Complement(t), ShiftDown(t), ShiftUp(t), Mirror(t), NoTree} \ {t}
 
 Init ==
     /\ kind = "none"
@@ -75,14 +102,43 @@ Configure(k, t, d) ==
     /\ dflt' = d
     /\ last' = NoReply
 
+\* the reply is a function of the configuration in force at this moment, and of nothing else
 Lookup(p) ==
     /\ kind # "none"
-    /\ last' = [op |-> "lookup", path |-> p, value |-> Resolve(tree, p, dflt)]
+    /\ last' = [op |-> "lookup", path |-> p, value |-> Resolve(tree, p, dflt), level |-> Level(tree, p)]
     /\ UNCHANGED <<kind, tree, dflt>>
+
+\* a reply given under an earlier configuration is remembered as such (observation only)
+Stale == IF last.op = "lookup" THEN [last EXCEPT !.op = "stale"] ELSE last
+
+SetAt(q, v) ==
+    /\ kind # "none"
+    /\ tree' = [x \in DOMAIN tree \cup {q} |-> IF x = q THEN v ELSE tree[x]]
+    /\ last' = Stale
+    /\ UNCHANGED <<kind, dflt>>
+
+Unset(q) ==
+    /\ kind # "none"
+    /\ q \in DOMAIN tree
+    /\ tree' = Restrict(tree, DOMAIN tree \ {q})
+    /\ last' = Stale
+    /\ UNCHANGED <<kind, dflt>>
+
+Reconfigure(t, d) ==
+    /\ kind # "none"
+    /\ tree' = t
+    /\ dflt' = d
+    /\ last' = Stale
+    /\ UNCHANGED kind
 
 Next ==
     \/ kind = "none" /\ \E k \in ModelKinds, t \in Trees : Configure(k, t, Default)
     \/ \E p \in Paths : Lookup(p)
+    \/ "set" \in Changes /\ \E q \in Nodes, v \in Settings \ {"absent"} :
+            (IF q \in DOMAIN tree THEN tree[q] # v ELSE TRUE) /\ SetAt(q, v)
+    \/ "unset" \in Changes /\ \E q \in DOMAIN tree : Unset(q)
+    \/ "replace" \in Changes /\ \E t \in Replacements(tree) : Reconfigure(t, Default)
+    \/ "replace-any" \in Changes /\ \E t \in Trees \ {tree} : Reconfigure(t, Default)
 
 Spec == Init /\ [][Next]_vars
 
@@ -90,7 +146,7 @@ Spec == Init /\ [][Next]_vars
 (* Invariants: the sentences of the documentation, stated independently of Resolve *)
 IsLookup == last.op = "lookup"
 
-TypeOK == kind \in Kinds \cup {"none"}
+TypeOK == kind \in Kinds \cup {"none"} /\ last.op \in {"none", "lookup", "stale"}
 
 \* "with a direct match": a value set at the very path is the answer
 DirectMatch == (IsLookup /\ HasValue(tree, last.path)) => last.value = tree[last.path]
@@ -120,4 +176,35 @@ OthersIrrelevant ==
 
 \* a written-down setting that is not a value never is the answer
 EmptyNeverUsed == IsLookup => last.value # EmptyVal
+
+-----------------------------------------------------------------------------
+(* History: the sentences above are about the tree in force when the reply is given.  The action  *)
+(* properties below say what that means for the same lookup made before and after the              *)
+(* configuration changed (last.op = "stale": path, value and level of the reply given before),     *)
+(* again without using Resolve.                                                                     *)
+SameLookupAgain == last'.op = "lookup" /\ last.op \in {"lookup", "stale"} /\ last'.path = last.path
+
+\* nothing changed in between: the same question has the same answer
+RepeatSameStep == (SameLookupAgain /\ last.op = "lookup") => last'.value = last.value
+
+ChangeRespectedStep ==
+    (SameLookupAgain /\ last.op = "stale") =>
+        LET p == last.path
+            lv == last.level                 \* the level the earlier reply came from (-1: the default)
+            t == tree'
+            more == {n \in (lv + 1)..Len(p) : HasValue(t, Prefix(p, n))}
+            used == lv >= 0 /\ HasValue(t, Prefix(p, lv))
+        IN  \* (a) a more specific level has a value now: the answer comes from there, the level used before is out
+            /\ more # {} => \E n \in more : last'.value = t[Prefix(p, n)]
+            \* (c) nothing more specific, the level used before still has a value: its CURRENT value
+            /\ (more = {} /\ used) => last'.value = t[Prefix(p, lv)]
+            \* (b) nothing more specific, the level used before lost its value: a less specific level or the default
+            /\ (more = {} /\ ~used) =>
+                   \/ \E n \in 0..(lv - 1) : HasValue(t, Prefix(p, n)) /\ last'.value = t[Prefix(p, n)]
+                   \/ last'.value = dflt' /\ \A n \in 0..Len(p) : ~HasValue(t, Prefix(p, n))
+
+RepeatSame == [][RepeatSameStep]_vars
+ChangeRespected == [][ChangeRespectedStep]_vars
+\* (d) whatever happened before (lookups, edits, whole trees replaced): the current tree alone decides
+CurrentTreeOnly == [][last'.op = "lookup" => last'.value = Walk(tree', last'.path, dflt')]_vars
 =============================================================================
